@@ -890,7 +890,10 @@ theorem setHref_edges (vfs : Vfs) (who : Who) : ∀ (fuel : Nat) (chain : List S
     | cons parent rest =>
       simp only at hv ⊢
       cases hj : urljoin parent href with
-      | error e => simp [hj] at hv
+      | error e =>
+        cases e <;> simp [hj] at hv
+        subst hv
+        simp [notLoaded, edges]
       | ok full =>
         simp only [hj] at hv ⊢
         by_cases hc : full ∈ parent :: rest
@@ -1313,10 +1316,12 @@ theorem setHref_noFuel (vfs : Vfs) (who : Who) : ∀ (fuel : Nat) (chain : List 
       simp only
       cases hj : urljoin parent href with
       | error e =>
-        simp only
-        intro he
-        simp at he
-        exact urljoin_ne_fuel parent href (he ▸ hj)
+        cases e
+        · simp
+        · simp
+        · simp
+        · simp
+        · exact absurd hj (urljoin_ne_fuel parent href)
       | ok full =>
         simp only
         by_cases hc : full ∈ parent :: rest
@@ -1727,10 +1732,12 @@ theorem setHref_ne_hier (vfs : Vfs) (who : Who) : ∀ (fuel : Nat) (chain : List
       simp only
       cases hj : urljoin parent href with
       | error e =>
-        simp only
-        intro he
-        simp at he
-        exact urljoin_ne_hier parent href (he ▸ hj)
+        cases e
+        · simp
+        · simp
+        · exact absurd hj (urljoin_ne_hier parent href)
+        · simp
+        · simp
       | ok full =>
         simp only
         by_cases hc : full ∈ parent :: rest
